@@ -573,7 +573,87 @@ fn event_two_waiters() {
     assert!(e.is_set());
 }
 
+/// a waiter is registered; set() and reset() race on two threads: the waiter was pending while
+/// the event was set, so it must have been woken and must complete at its next poll
+fn event_set_vs_reset() {
+    let e = Arc::new(GenericManualResetEvent::<LoomRaw>::new(false));
+    let _ = e.is_set();
+    let er: &'static GenericManualResetEvent<LoomRaw> = unsafe { &*(&*e as *const GenericManualResetEvent<LoomRaw>) };
+    let mut fut = Box::pin(er.wait());
+    let (w1, c1) = counting_waker();
+    assert!(fut.as_mut().poll(&mut Context::from_waker(&w1)).is_pending());
+    let e1 = e.clone();
+    let h1 = loom::thread::spawn(move || e1.set());
+    let e2 = e.clone();
+    let h2 = loom::thread::spawn(move || e2.reset());
+    h1.join().unwrap();
+    h2.join().unwrap();
+    assert!(c1.load(Ordering::SeqCst) > 0, "C14: set() was called while the waiter was pending but it was not woken");
+    let (w2, _c2) = counting_waker();
+    assert!(fut.as_mut().poll(&mut Context::from_waker(&w2)).is_ready(), "C14: the event was set while the future waited, but it does not complete");
+    drop(fut);
+}
+
 // ------------------------------------------------------------------- mpmc
+
+struct DropCount(std::sync::Arc<AtomicUsize>);
+impl Drop for DropCount {
+    fn drop(&mut self) {
+        self.0.fetch_add(1, Ordering::SeqCst);
+    }
+}
+
+/// the last receiver is dropped while another thread is sending: afterwards no accepted value may
+/// still be alive inside the channel although a sender handle exists
+fn mpmc_last_receiver_clears() {
+    let drops = std::sync::Arc::new(AtomicUsize::new(0));
+    let (tx, rx) = sh::generic_channel::<LoomRaw, DropCount, FixedHeapBuf<DropCount>>(2);
+    let _ = rx.try_receive();
+    assert!(tx.try_send(DropCount(drops.clone())).is_ok());
+    let tx2 = tx.clone();
+    let d2 = drops.clone();
+    let h1 = loom::thread::spawn(move || {
+        let _ = tx2.try_send(DropCount(d2));
+    });
+    let h2 = loom::thread::spawn(move || drop(rx));
+    h1.join().unwrap();
+    h2.join().unwrap();
+    assert_eq!(drops.load(Ordering::SeqCst), 2, "C11: the last receiver was dropped but buffered values are still alive inside the channel");
+    drop(tx);
+}
+
+/// cap 1: value 1 buffered, send(2) parked; a receive races with try_send(3): 2 took effect before 3
+fn mpmc_refill_race() {
+    let (tx, rx) = sh::generic_channel::<LoomRaw, u32, FixedHeapBuf<u32>>(1);
+    let _ = rx.try_receive();
+    tx.try_send(1).unwrap();
+    let mut parked = Box::pin(tx.send(2));
+    let (w1, _c1) = counting_waker();
+    assert!(parked.as_mut().poll(&mut Context::from_waker(&w1)).is_pending());
+    let rx2 = rx.clone();
+    let h1 = loom::thread::spawn(move || rx2.try_receive().ok());
+    let tx2 = tx.clone();
+    let h2 = loom::thread::spawn(move || tx2.try_send(3).is_ok());
+    let first = h1.join().unwrap();
+    let third_accepted = h2.join().unwrap();
+    assert_eq!(first, Some(1), "C09: the buffered value must be received first");
+    let mut rest = vec![];
+    let mut parked_done = false;
+    loop {
+        if !parked_done {
+            parked_done = parked.as_mut().poll(&mut Context::from_waker(&w1)).is_ready();
+        }
+        match rx.try_receive() {
+            Ok(v) => rest.push(v),
+            Err(_) => break,
+        }
+        if rest.len() > 4 {
+            break;
+        }
+    }
+    let want: Vec<u32> = if third_accepted { vec![2, 3] } else { vec![2] };
+    assert_eq!(rest, want, "C09: values must be received in the order in which their sends took effect");
+}
 
 /// two producers, one consumer; per-producer order must survive
 fn mpmc_2p1c(cap: usize, second: bool) {
@@ -721,12 +801,25 @@ fn state_handles_race() {
         drop(rx_a);
         drop(tx_a);
     });
-    let h2 = loom::thread::spawn(move || drop(rx_b));
+    let tx_b = tx.clone();
+    let h2 = loom::thread::spawn(move || {
+        drop(rx_b);
+        let t = tx_b.clone();
+        drop(t);
+        drop(tx_b);
+    });
     h1.join().unwrap();
     h2.join().unwrap();
     assert!(tx.send(1).is_ok(), "C11: state channel closed although a sender and a receiver handle are alive");
+    let rx2 = rx.clone();
+    drop(tx);
+    assert!(rx2.try_receive(StateId::new()).is_some());
+    let v = loom::future::block_on(async {
+        let (id, _) = rx2.try_receive(StateId::new()).unwrap();
+        rx2.receive(id).await
+    });
+    assert!(v.is_none(), "C11: state channel not closed after the last sender was dropped");
     drop(rx);
-    assert!(tx.send(2).is_err(), "C11: state channel not closed after the last receiver was dropped");
 }
 
 fn bcast_handles_race() {
@@ -886,7 +979,44 @@ fn state_followers() {
     }
 }
 
+/// state 1 is published; try_receive races with the next send: it must yield a state
+fn state_try_receive_contended() {
+    let c = Arc::new(GenericStateBroadcastChannel::<LoomRaw, u32>::new());
+    let _ = c.try_receive(StateId::new());
+    c.send(1).unwrap();
+    let c2 = c.clone();
+    let h = loom::thread::spawn(move || {
+        c2.send(2).unwrap();
+    });
+    let r = c.try_receive(StateId::new());
+    h.join().unwrap();
+    assert!(matches!(r, Some((_, 1)) | Some((_, 2))), "C13: try_receive(StateId::new()) returned {:?} although a state is published", r.map(|x| x.1));
+}
+
 // ------------------------------------------------------------------ timer
+
+/// a due, registered timer must be woken by check_expirations() even if another thread is using the timer
+fn timer_check_contended() {
+    CLK.0.store(0, Ordering::SeqCst);
+    let t = Arc::new(GenericTimerService::<LoomRaw>::new(&CLK));
+    let _ = t.next_expiration();
+    let tr: &'static GenericTimerService<LoomRaw> = unsafe { &*(&*t as *const GenericTimerService<LoomRaw>) };
+    let mut fut = Box::pin(Timer::deadline(tr, 1));
+    let (w1, c1) = counting_waker();
+    assert!(fut.as_mut().poll(&mut Context::from_waker(&w1)).is_pending());
+    CLK.0.store(1, Ordering::SeqCst);
+    let t2 = t.clone();
+    let h = loom::thread::spawn(move || {
+        let _ = t2.next_expiration();
+        let _ = poll_once_and_drop(Timer::deadline(&*t2, 5));
+    });
+    t.check_expirations();
+    h.join().unwrap();
+    assert!(c1.load(Ordering::SeqCst) > 0, "C15: check_expirations() ran with clock >= deadline but the registered future was not woken");
+    assert!(fut.as_mut().poll(&mut Context::from_waker(&w1)).is_ready(), "C15: due timer future does not complete");
+    drop(fut);
+}
+
 
 fn timer_two_waiters() {
     CLK.0.store(0, Ordering::SeqCst);
@@ -938,6 +1068,11 @@ fn timer_abandon() {
 }
 
 const SCENARIOS: &[(&str, &str, Scenario)] = &[
+    ("event_set_vs_reset", "C14", event_set_vs_reset),
+    ("mpmc_last_receiver_clears", "hook:C11", mpmc_last_receiver_clears),
+    ("mpmc_refill_race", "C09", mpmc_refill_race),
+    ("state_try_receive_contended", "C13", state_try_receive_contended),
+    ("timer_check_contended", "C15", timer_check_contended),
     ("swap_mutex_fair", "C03", swap_mutex_fair),
     ("swap_mutex_unfair", "C03", swap_mutex_unfair),
     ("swap_sem_fair", "C06", swap_sem_fair),
